@@ -103,6 +103,7 @@ def _die_with_parent():
 
 
 def _run_one(check, batch, agg, timeout, dev, requeue):
+    t_batch = time.time()
     env = dict(os.environ)
     env.setdefault("PYTHONHASHSEED", "0")
     env["PYTHONPATH"] = VERIF
@@ -159,6 +160,8 @@ def _run_one(check, batch, agg, timeout, dev, requeue):
             agg.add(r, batch.get("cls"))
     p.wait()
     te.join(timeout=5)
+    if os.environ.get("VERIF_TIMING"):
+        sys.stderr.write("TIMING %7.1fs %s start=%s count=%s env=%s\n" % (time.time() - t_batch, batch.get("cls"), batch.get("start"), batch.get("count"), batch.get("env")))
     if not done[0]:
         stderr_tail = "".join(err_chunks)[-1500:]
         idx = inflight[0]
